@@ -3,6 +3,7 @@
 // In-process: hextb.cpp's load()/run() vs hexsim::Processor; process level: the two built executables.
 #include <dirent.h>
 #include "common/mc.hpp"
+#include <fcntl.h>
 #include "common/xgen.hpp"
 #include "common/xrun.hpp"
 #include "common/tbrun.hpp"
@@ -39,19 +40,25 @@ static uint64_t inDomain(const std::string &file, const std::string &input, uint
   }
   return steps0;
 }
-static int runProc(const std::vector<std::string> &argv, const std::string &cwd, const std::string &stdinPath, std::string &out, double timeout) {
+// consumedOut: how far the standard-input file (a regular file opened by the parent and shared with the child) has been consumed when the process has gone: what a
+// following reader of the same descriptor would no longer see
+static int runProc(const std::vector<std::string> &argv, const std::string &cwd, const std::string &stdinPath, std::string &out, double timeout, long *consumedOut = nullptr) {
   std::string op = cwd + "/stdout.txt";
+  int infd = open(stdinPath.c_str(), O_RDONLY);
   pid_t p = fork();
   if (p == 0) {
     if (chdir(cwd.c_str())) _exit(126);
     std::vector<char *> a; for (auto &s : argv) a.push_back((char *)s.c_str()); a.push_back(nullptr);
-    if (!freopen(stdinPath.c_str(), "rb", stdin) || !freopen(op.c_str(), "wb", stdout) || !freopen("/dev/null", "wb", stderr)) _exit(126);
+    if (infd < 0 || dup2(infd, 0) < 0 || !freopen(op.c_str(), "wb", stdout) || !freopen("/dev/null", "wb", stderr)) _exit(126);
+    close(infd);
     child_limits((size_t)4 << 30);
     execv(a[0], a.data()); _exit(127);
   }
   double t0 = now(); int status = 0;
   while (true) { pid_t r = waitpid(p, &status, WNOHANG); if (r == p) break; if (now() - t0 > timeout) { kill(p, SIGKILL); waitpid(p, &status, 0); return -999; } usleep(300); }
   out = slurp(op);
+  if (consumedOut) *consumedOut = infd >= 0 ? (long)lseek(infd, 0, SEEK_CUR) : -1;
+  if (infd >= 0) close(infd);
   return WIFEXITED(status) ? WEXITSTATUS(status) : -WTERMSIG(status);
 }
 
@@ -161,20 +168,25 @@ int main(int argc, char **argv) {
         if (input.size()) st.add("pairs_with_input");
         // process level on a stride of the pairs
         if (cli && k == 0 && (i % procEvery == 0 || i < shipped) && steps < 20000000) {
-          spit(dir + "/in.txt", input);
+          // the program's input followed by bytes it never reads: what is left on the descriptor afterwards must be the same for both executables
+          std::string pin = input + std::string("unread tail: 0123456789 0123456789 0123456789\n");
+          { std::string why2; uint64_t st2 = inDomain(file, pin, th ? 400000000ull : 3000000ull, why2); if (!st2 || st2 >= 20000000) pin = input; else st.add("pairs_process_level_with_unread_tail"); }   // the longer input must itself be inside the domain
+          spit(dir + "/in.txt", pin);
           std::string o1, o2;
           // each executable writes its simout<n> files into the working directory: collect (and remove) them after each run
           auto takeFiles = [&](std::string f[8]) { for (int n = 0; n < 8; n++) { std::string p = dir + "/simout" + std::to_string(n); f[n] = slurp(p); unlink(p.c_str()); } };
           std::string pf1[8], pf2[8];
-          int r1 = runProc({std::string(cli) + "/hextb", R.binPath, "+verilator+seed+" + std::to_string(1 + i % 1000)}, dir, dir + "/in.txt", o1, 300);
+          long c1 = -1, c2 = -1;
+          int r1 = runProc({std::string(cli) + "/hextb", R.binPath, "+verilator+seed+" + std::to_string(1 + i % 1000)}, dir, dir + "/in.txt", o1, 300, &c1);
           takeFiles(pf1);
-          int r2 = runProc({std::string(cli) + "/hexsim", R.binPath}, dir, dir + "/in.txt", o2, 300);
+          int r2 = runProc({std::string(cli) + "/hexsim", R.binPath}, dir, dir + "/in.txt", o2, 300, &c2);
           takeFiles(pf2);
           st.add("pairs_process_level");
           size_t nl = o1.find('\n'); std::string after = nl == std::string::npos ? o1 : o1.substr(nl + 1);
           if (r1 < 0 || r2 < 0) viol("process", "abnormal", "hextb status " + std::to_string(r1) + " hexsim status " + std::to_string(r2));
           else if (after != o2) viol("process", "output", "stdout after the banner differs: hextb '" + hexs(after.substr(0, 48)) + "' hexsim '" + hexs(o2.substr(0, 48)) + "'");
           else if (r1 != r2) viol("process", "status", "exit status hextb " + std::to_string(r1) + " hexsim " + std::to_string(r2));
+          else if (c1 != c2) viol("process", "consumption", "of " + std::to_string(pin.size()) + " bytes on standard input (a regular file) hextb leaves the descriptor at " + std::to_string(c1) + ", hexsim at " + std::to_string(c2));
           else for (int n = 0; n < 8; n++) if (pf1[n] != pf2[n]) { viol("process", "file-stream", "simout" + std::to_string(n) + ": hextb " + std::to_string(pf1[n].size()) + " bytes '" + hexs(pf1[n].substr(0, 48)) + "' hexsim " + std::to_string(pf2[n].size()) + " bytes '" + hexs(pf2[n].substr(0, 48)) + "'"); break; }
           unlink((dir + "/in.txt").c_str()); unlink((dir + "/stdout.txt").c_str());
           std::string rm = "rm -rf '" + dir + "/logs'"; if (system(rm.c_str())) {}
